@@ -95,6 +95,10 @@ type Check struct {
 	// DeathIsViolation: a worker that dies without a result is a violation of the
 	// property (C15/C20: "never crashes"), witnessed by the input it logged last.
 	DeathIsViolation bool
+	// Race, if set, is an additional workload run by a binary built with -race (race tier):
+	// cases [0, RaceCases(tier)). DATA RACE reports with repository frames are violations.
+	Race      func(ctx *Ctx) *Result
+	RaceCases func(tier string) int
 }
 
 type Ctx struct {
@@ -170,6 +174,7 @@ func main() {
 	replay := flag.String("replay", "", "witness file to replay")
 	only := flag.Int("case", -1, "run a single case in-process and print its trace")
 	procs := flag.Int("procs", 16, "worker processes")
+	raceRun := flag.Bool("race-run", false, "internal: worker runs the race workload")
 	flag.Parse()
 	if t := os.Getenv("VERIF_TIER"); t != "" && !flagSet("tier") {
 		*tier = t
@@ -200,7 +205,13 @@ func main() {
 		if *out != "" {
 			ctx.CurFile = *out + ".cur"
 		}
-		res := ck.Run(ctx)
+		run := ck.Run
+		if *raceRun {
+			run = ck.Race
+			ctx.N = ck.RaceCases(*tier)
+			ctx.Seed = seed + 7919
+		}
+		res := run(ctx)
 		b, _ := json.Marshal(res)
 		if *out != "" {
 			os.WriteFile(*out, b, 0o644)
@@ -331,7 +342,86 @@ func parent(ck *Check, tier string, seed int64, procs int) int {
 		}(i)
 	}
 	wg.Wait()
+	if rb := os.Getenv("VCHECK_RACE_BIN"); rb != "" && ck.Race != nil {
+		raceTier(ck, total, tier, seed, rb, tmp, watchdog)
+	}
 	return finish(ck, total, tier, seed, time.Since(start).Seconds())
+}
+
+// raceTier runs the check's race workload in processes built with -race and turns DATA RACE
+// reports into verdicts: a report with a repository frame is a violation of the property whose
+// code it is in; a report with harness/client-go frames only makes the run inconclusive.
+func raceTier(ck *Check, total *Result, tier string, seed int64, bin, tmp string, watchdog time.Duration) {
+	n := ck.RaceCases(tier)
+	procs := 8
+	if procs > n {
+		procs = n
+	}
+	var mu sync.Mutex
+	var wg sync.WaitGroup
+	for i := 0; i < procs; i++ {
+		wg.Add(1)
+		go func(i int) {
+			defer wg.Done()
+			outf := filepath.Join(tmp, fmt.Sprintf("r%d.json", i))
+			cmd := exec.Command(bin, "-worker", "-race-run", "-prop", ck.Prop, "-tier", tier, "-shard", fmt.Sprint(i), "-of", fmt.Sprint(procs), "-out", outf)
+			cmd.Env = append(os.Environ(), fmt.Sprintf("VERIF_SEED=%d", seed), fmt.Sprintf("GORACE=halt_on_error=0 log_path=%s", filepath.Join(tmp, fmt.Sprintf("race.w%d", i))))
+			lf, _ := os.Create(filepath.Join(tmp, fmt.Sprintf("r%d.log", i)))
+			cmd.Stdout, cmd.Stderr = lf, lf
+			done := make(chan error, 1)
+			cmd.Start()
+			go func() { done <- cmd.Wait() }()
+			var werr error
+			select {
+			case werr = <-done:
+			case <-time.After(watchdog):
+				cmd.Process.Kill()
+				werr = <-done
+			}
+			lf.Close()
+			mu.Lock()
+			defer mu.Unlock()
+			b, rerr := os.ReadFile(outf)
+			var r Result
+			if rerr != nil || json.Unmarshal(b, &r) != nil {
+				lb, _ := os.ReadFile(filepath.Join(tmp, fmt.Sprintf("r%d.log", i)))
+				tl := string(lb)
+				if len(tl) > 2000 {
+					tl = tl[len(tl)-2000:]
+				}
+				if cur, cerr := os.ReadFile(outf + ".cur"); ck.DeathIsViolation && cerr == nil {
+					total.Violations = append(total.Violations, Witness{Prop: ck.Prop, Clause: "process-died", Msg: fmt.Sprintf("race-tier process died (%v)", werr), Family: "death", Case: -1, Seed: seed, Tier: tier,
+						Detail: map[string]interface{}{"last_input": string(cur), "output_tail": tl}})
+				} else {
+					total.Inconclusive = append(total.Inconclusive, fmt.Sprintf("race worker %d died without a result (%v): %s", i, werr, tl))
+				}
+				return
+			}
+			r2 := newResult()
+			r2.merge(&r)
+			for k, v := range r.Stats {
+				delete(r2.Stats, k)
+				r2.Stats["race_tier_"+k] = v
+			}
+			total.merge(r2)
+		}(i)
+	}
+	wg.Wait()
+	reports := parseRaceLogs(tmp)
+	total.Stats["race_tier_processes"] = procs
+	total.Stats["race_reports_distinct"] = len(reports)
+	for _, r := range reports {
+		if !r.Repo {
+			total.Inconclusive = append(total.Inconclusive, "DATA RACE report without a repository frame (harness/client-go noise): "+r.Key)
+			continue
+		}
+		if p := racePropertyOf(r); p == ck.Prop {
+			total.Violations = append(total.Violations, Witness{Prop: ck.Prop, Clause: "data-race", Msg: "the race detector reported a data race in repository code: " + r.Key, Family: "race", Case: -1, Seed: seed, Tier: tier, Detail: r.Text})
+		} else {
+			total.Stats["race_reports_for_other_property_"+p]++
+		}
+	}
+	total.Extra["race_detector"] = fmt.Sprintf("%d processes built with -race ran %d cases; %d distinct DATA RACE reports", procs, n, len(reports))
 }
 
 func finish(ck *Check, total *Result, tier string, seed int64, wall float64) int {
@@ -422,6 +512,10 @@ func finish(ck *Check, total *Result, tier string, seed int64, wall float64) int
 		}
 		return 3
 	}
-	fmt.Printf("HELD property=%s on everything explored\n", ck.Prop)
+	if len(knownSeen) > 0 {
+		fmt.Printf("HELD property=%s on everything explored, apart from the %d known finding(s) listed above\n", ck.Prop, len(knownSeen))
+	} else {
+		fmt.Printf("HELD property=%s on everything explored\n", ck.Prop)
+	}
 	return 0
 }
